@@ -161,6 +161,11 @@ def run(ctx, rep):
     from props import storage_forms as sfw_
     sfw_.writers_before_readers(ctx, rep, 'R03.l')
 
+    # ------------------------------------------------------------ R03.m what a handler journals names the entity it acted on
+    rep.rule('R03.m', 'every journalled command names the entity the request named (ids and names of the rebuilt payload come from the like-named fields of the request): replay of a DeletePartitions filed under another topic makes the loader delete the directory of a live partition at the next clean restart', floor=18, analysis='A9 provenance')
+    from props.c05 import journal_entity_provenance, journalling_sites
+    journal_entity_provenance(ctx, rep, 'R03.m', journalling_sites(ctx))
+
 
 def dir_pairing(ctx, rep, rid):
     import forms as forms_
